@@ -1,6 +1,6 @@
 (* Function table for the function-level correspondence check.  The ids are
    mirrored in harness/fnids.go. *)
-From OTR Require Import Go.Base Gen.Consts Corr.Val Bytes.Wire Bytes.Msgs Bytes.Strconv Bytes.B64 Bytes.Frag Bytes.Text Proto.Group Crypto.Sha Crypto.Aes Spec.Otr Bytes.Sexp Bytes.KeyFile.
+From OTR Require Import Go.Base Gen.Consts Corr.Val Bytes.Wire Bytes.Msgs Bytes.Strconv Bytes.B64 Bytes.Frag Bytes.Text Proto.Group Crypto.Sha Crypto.Aes Spec.Otr Bytes.Sexp Bytes.KeyFile Bytes.FragV3.
 Open Scope N_scope.
 
 Definition v_rest_n (o : option (bytes * N)) : val :=
@@ -98,6 +98,16 @@ Fixpoint run_v2_frags (c : fragctx) (msgs : list bytes) : list val :=
       else VB m :: run_v2_frags fc_empty r
   end.
 
+(* Receive on a v3-only plaintext conversation with own tag [our], restricted to messages with the v3 fragment
+   marker: what each call returns as plaintext, and the peer instance the conversation is bound to afterwards *)
+Fixpoint run_v3_frags (our : N) (s : fragctx * N) (msgs : list bytes) : list val :=
+  match msgs with
+  | [] => []
+  | m :: r =>
+      let '(s', done) := receiveFragmentV3 our s m in
+      VL [match done with Some d => VB d | None => VNone end; VN (snd s')] :: run_v3_frags our s' r
+  end.
+
 Definition v_tags (r : R (option (N * N))) : val :=
   match r with
   | Ok (Some (o, t)) => VL [VN o; VN t]
@@ -166,6 +176,7 @@ Definition dispatch_text (fn : N) (a : list val) : val :=
   | 63 => vopt VN (bytesToUint16 (argB a 0))
   | 64 => vopt VN (parseItag (argB a 0))
   | 65 => VL (run_v2_frags fc_empty (map valB (argL a 0)))
+  | 66 => VL (run_v3_frags (argN a 0) (fc_empty, 0) (map valB (argL a 1)))
   | 68 => v_tags (ExtractInstanceTags (argB a 0))
   | 70 => VN (guessMessageType (argB a 0))
   | 71 => VL (map VN (parseOTRQueryMessage (argB a 0)))
